@@ -186,6 +186,8 @@ def runCase (c : Case) : String × String :=
   | "covcheck" => runCovcheck c
   | "skfdec" => runSkfdec c
   | "unframe" => runUnframe c
+  | "snapblock" => runSnapblock c
+  | "names" => runNames c
   | "map" => runMap c
   | "alnw" => runAlnw c
   | "hist" =>
